@@ -29,6 +29,8 @@ func main() {
 		E.debugGlobals()
 	case "verify":
 		cmdVerify(os.Args[2:])
+	case "check":
+		cmdCheck(os.Args[2:])
 	default:
 		fmt.Fprintln(os.Stderr, "unknown command", os.Args[1])
 		os.Exit(2)
@@ -120,6 +122,7 @@ func cmdVerify(args []string) {
 	E, V := setup()
 	lock := false
 	verbose := false
+	tmo := 10.0
 	var keys []string
 	for _, a := range args {
 		switch a {
@@ -129,6 +132,10 @@ func cmdVerify(args []string) {
 			verbose = true
 		case "-keep":
 			V.Solver.KeepFiles = true
+		case "-t60":
+			tmo = 60
+		case "-t120":
+			tmo = 120
 		default:
 			keys = append(keys, a)
 		}
@@ -146,7 +153,7 @@ func cmdVerify(args []string) {
 			bad++
 			continue
 		}
-		V.Solver.Discharge(E.TS, r.Obls, 10, false)
+		V.Solver.Discharge(E.TS, r.Obls, tmo, false)
 		np := 0
 		for _, o := range r.Obls {
 			if o.Status == "proved" {
